@@ -29,7 +29,7 @@ WAIT_TIMEOUT = 60.0
 async def _child(path: str, marker: str, iters: int, raise_every: int,
                  who: int, out: dict[str, Any]) -> None:
     from pymap.concurrent import FileLock
-    delay = (0.0002, 0.0005) + (0.001,) * 5000
+    delay = (0.0002, 0.0005) + (0.001,) * 2000
     lock = FileLock(path, write_retry_delay=delay, read_retry_delay=delay)
     for i in range(iters):
         if os.path.exists(path):
@@ -64,6 +64,8 @@ async def _child(path: str, marker: str, iters: int, raise_every: int,
             pass
         except TimeoutError:
             out['timeout'] += 1
+            if out['timeout'] >= 2:
+                return      # give up; the parent looks at the lock file
         if (i + who) % 2:
             await asyncio.sleep(0.0001)
 
